@@ -209,6 +209,16 @@ def judge(a, outs, D, B, tv, maxd, exact):
             cands = [(int(j) // w, int(j) % w, float(vals[j]), float(D[i, j]), float(B[i, j])) for j in np.flatnonzero(tm)]
             problems.append(("prox-witness", "no target cell has value == allocation, distance == proximity and bearing == "
                              "direction: %s; targets (row, col, value, distance, bearing): %r" % (txt, cands[:8])))
+        # 5b. "the one whose value allocation reports": allocation is a float32 raster, so a target value that float32 cannot
+        #     hold (ids >= 2**24, |v| < 1e-45 or > 3.4e38) is reported ROUNDED - possibly to the value of another, non-target
+        #     cell.  Reported under its own relation (known finding: call-site defect of the float32 output buffer).
+        truev = np.asarray(a, dtype=np.float64).ravel()
+        rounded = fin & match.any(axis=1) & ~(match & (truev[None, :] == al[:, None])).any(axis=1)
+        if rounded.any():
+            i, txt = cell(rounded)
+            j = int(np.flatnonzero(match[i])[0])
+            problems.append(("alloc-rounded", "allocation reports %r for the target at (%d,%d) whose value is %r (float32 output): %s"
+                             % (float(al[i]), j // w, j % w, float(truev[j]), txt)))
         # 6. never smaller than the distance to the truly nearest target
         under = fin & (p < Ds - (RTOL * np.where(np.isfinite(Ds), Ds, 0.0) + ATOL))
         if under.any():
@@ -295,6 +305,7 @@ class ProxSpace(Space):
                 out.count("inexact_layouts_not_asserted")
             for rel, msg in problems[:5]:
                 out.violation(rank, rel + "|" + key, msg, case=self.describe(rank),
+                              sig="allocation|float32-output-rounds-the-target-value" if rel == "alloc-rounded" else None,
                               observed={"proximity": outs[0], "allocation": outs[1], "direction": outs[2]},
                               expected={"nearest_target_distance": orc.nearest(D, tm.ravel()).reshape(shape),
                                         "max_distance": maxd})
